@@ -510,7 +510,6 @@ fn cmd_enum(kv: &BTreeMap<String, String>) -> i32 {
         faults: bool,
     }
     let mut items: Vec<Item> = vec![];
-    let seqs = sequences(cfg.lens.len(), cfg.max_len);
     // alphabet for fixed / owned writers additionally contains Flush (index = lens.len())
     let seqs_f = sequences(cfg.lens.len() + 1, cfg.max_len);
     for cap in &cfg.caps {
@@ -518,8 +517,9 @@ fn cmd_enum(kv: &BTreeMap<String, String>) -> i32 {
             if pre > *cap {
                 continue;
             }
-            for s in &seqs {
-                let mut ops: Vec<Op> = s.iter().enumerate().map(|(i, a)| Op::Write(chunk_for(cfg.lens[*a], i))).collect();
+            // alphabet of caller-supplied writers: the chunk lengths plus one single-character write (write_char)
+            for s in &seqs_f {
+                let mut ops: Vec<Op> = s.iter().enumerate().map(|(i, a)| if *a == cfg.lens.len() { Op::Char((b'A' + (i % 26) as u8) as char) } else { Op::Write(chunk_for(cfg.lens[*a], i)) }).collect();
                 ops.push(Op::Flush);
                 ops.push(Op::Access);
                 items.push(Item {
